@@ -477,6 +477,24 @@ impl Check for C10 {
             })
             .collect();
         let mut ops: Vec<Op> = ops;
+        if rng.chance(1, 8) {
+            // timer-configuration bundle: control byte, divider and interrupt mask from the corners of
+            // their bit fields, in a seeded order, then a look at the status register
+            let at = rng.usize(ops.len() + 1);
+            let mut b = vec![
+                Op::S(Stim::BusWrite(0xFD, *rng.pick(&[0x90u8, 0xB0, 0xD0, 0xF0, 0x80, 0x10, 0x91, 0xFF]))),
+                Op::S(Stim::BusWrite(0xFC, *rng.pick(&[0u8, 1, 1, 2, 0xFF]))),
+                Op::S(Stim::BusWrite(0xF9, *rng.pick(&[0u8, 1, 2, 3, 0x3F, 0xFF]))),
+            ];
+            let k = rng.usize(3);
+            b.swap(0, k);
+            let k = 1 + rng.usize(2);
+            b.swap(1, k);
+            b.push(Op::S(Stim::BusRead(0xF9)));
+            for (k, o) in b.iter().enumerate() {
+                ops.insert(at + k, o.clone());
+            }
+        }
         if rng.chance(1, 6) {
             // interrupt-mask bundle: enable, press, rewrite the mask (with or without the key bit), press
             let at = rng.usize(ops.len() + 1);
